@@ -13,9 +13,11 @@ package jsonapi
 
 //@ interface Resource.Attrs
 //@ ensures obs: result == R_attrs($rh, self)
+//@ ensures wf: forall k string :: k in result ==> result[k].Name == k
 
 //@ interface Resource.Rels
 //@ ensures obs: result == R_rels($rh, self)
+//@ ensures wf: forall k string :: k in result ==> result[k].FromName == k
 
 //@ interface Resource.GetType
 //@ ensures obs: result == R_type($rh, self)
